@@ -77,6 +77,9 @@ def grid_jobs(exe, d, quick, hps=(0,)):
     base = ["keep=" + d, "readback=0"]
     jobs += F.jobs(exe, base + ["set=alpha", "maxlen=1"] + F.cfg(F.ALL_LEVELS, F.ALL_CONTS, (0, 1), hps), 16)
     jobs += F.jobs(exe, base + ["set=alpha", "maxlen=2"] + F.cfg([0, 6] if quick else [0, 1, 5, 6, 9], [1, 33, 48, 100, 0x20000] if quick else F.ALL_CONTS, (0, 1), hps[:1]), 32)
+    # the same sessions after different earlier sessions in the process (configurations in reverse order: larger containers
+    # first): a configuration value that survives a session shows as containers larger than configured
+    jobs += F.jobs(exe, base + ["set=alpha", "maxlen=1", "order=rev"] + F.cfg([0, 6] if quick else [0, 1, 6, 9], F.ALL_CONTS, (0, 1), hps[:1]), 8)
     if not quick:
         jobs += F.jobs(exe, base + ["set=universe", "slice=7"] + F.cfg([0, 6], [64, 0x20000], (0,), hps[:1]), 8)
     return jobs
